@@ -151,3 +151,32 @@ def gen_frame_boxes(repo):
     a, n = _const_str_ifexp(_local_assign(gfn, "bar"), "pulse bar")
     out.append(f"Definition PULSE_BAR_ASCII : list Z := {strlit(a)}.\nDefinition PULSE_BAR : list Z := {strlit(n)}.\n")
     return "".join(out)
+
+
+@generator("FrameFacts.v")
+def gen_frame_facts(repo):
+    """T3: the width rule of Console.print -- the `width=` keyword of its options.update(...) call and the arguments of
+    the final crop -- as booleans the model branches on"""
+    tree, _ = parse(repo, "rich/console.py")
+    fn = find_func(find_class(tree, "Console").body, "print")
+    width_expr = None
+    crop_args = None
+    for node in ast.walk(fn):
+        if isinstance(node, ast.Call) and isinstance(node.func, ast.Attribute) and node.func.attr == "update" \
+                and ast.unparse(node.func.value) == "self.options":
+            for kw in node.keywords:
+                if kw.arg == "width":
+                    width_expr = ast.unparse(kw.value)
+        if isinstance(node, ast.Call) and isinstance(node.func, ast.Attribute) and node.func.attr == "split_and_crop_lines":
+            crop_args = [ast.unparse(a) for a in node.args] + [f"{k.arg}={ast.unparse(k.value)}" for k in node.keywords]
+    if width_expr is None:
+        raise Untranslatable("Console.print: no self.options.update(width=...) call")
+    if crop_args is None:
+        raise Untranslatable("Console.print: no split_and_crop_lines call")
+    rule_ok = width_expr == "min(width, self.width) if width else None"
+    crop_ok = crop_args == ["new_segments", "self.width", "pad=False"]
+    out = [HEADER]
+    out.append(f"(* Console.print: options.update(width={width_expr}) ; split_and_crop_lines({', '.join(crop_args)}) *)\n")
+    out.append("Definition PRINT_WIDTH_IS_MIN_OR_NONE : bool := %s.\n" % ("true" if rule_ok else "false"))
+    out.append("Definition PRINT_CROPS_AT_CONSOLE_WIDTH : bool := %s.\n" % ("true" if crop_ok else "false"))
+    return "".join(out)
